@@ -6,6 +6,7 @@ import (
 	"fmt"
 	"go/constant"
 	"go/token"
+	"go/types"
 	"sort"
 	"strings"
 
@@ -581,8 +582,198 @@ func ruleGlobalState(r *Run) {
 			r.Bad(rule, fnName(fn), construct, r.P.pos(ins.Pos()), "request-handling code writes package-level state, which outlives the request and is shared by concurrent requests: an object memoised or pooled there (a queryer bound to one request's context, a formatter that keeps its operation type, a buffer still referenced by an unsent body) makes one request's outcome depend on another's")
 		}
 	}
+	// R3j: request code does not write into an object of a library type that it did not create
+	// itself. Such objects are handed in from outside (the HTTP client of the default queryer
+	// factory is http.DefaultClient, one per process): a field set for one request — a timeout,
+	// a transport, a redirect policy — holds for every other request in flight, and the write
+	// races with their reads.
+	nLib := 0
+	for _, fn := range fns {
+		for _, ins := range allInstrs(fn) {
+			st, ok := ins.(*ssa.Store)
+			if !ok {
+				continue
+			}
+			fa, ok := st.Addr.(*ssa.FieldAddr)
+			if !ok {
+				continue
+			}
+			owner := namedOf(fa.X.Type())
+			if owner == "" || strings.HasPrefix(owner, modPath) || !strings.Contains(owner, ".") {
+				continue
+			}
+			if strings.HasPrefix(owner, gqlAST) || strings.HasPrefix(owner, "github.com/vektah/gqlparser") {
+				continue // AST nodes: R3a.ast
+			}
+			root := fa.X
+			for {
+				if f2, ok := root.(*ssa.FieldAddr); ok {
+					root = f2.X
+					continue
+				}
+				break
+			}
+			if al, ok := root.(*ssa.Alloc); ok && al.Parent() == fn {
+				continue // built here
+			}
+			if ex, ok := root.(*ssa.Extract); ok {
+				root = ex.Tuple
+			}
+			if c, ok := root.(*ssa.Call); ok {
+				if sc := c.Call.StaticCallee(); sc != nil && !inModule(sc) {
+					continue // returned by a library constructor called here (url.Parse, http.NewRequest)
+				}
+			}
+			nLib++
+			r.Bad("R3j", fnName(fn), "write "+owner+"."+fieldOf(fa).Name(), r.P.pos(st.Pos()),
+				"request-handling code sets a field of a "+owner+" it did not create: the object comes from outside (the default queryer factory hands every queryer the process-wide http.DefaultClient), so the value set for this request holds for all others in flight and the write races with their use of the object")
+		}
+	}
+	if nLib == 0 {
+		r.OK("R3j", fnName(h), "library objects handed in are not written", r.P.pos(h.Pos()), fmt.Sprintf("no store into a field of a non-module, non-AST struct that the storing function did not allocate, in the %d functions reachable from Handler", len(fns)))
+	}
 	if n == 0 {
 		r.OK(rule, fnName(h), "package-level state is read-only on the request path", r.P.pos(h.Pos()), fmt.Sprintf("no store, map write, delete or sync.Map/sync.Pool call on a package variable in the %d functions reachable from Handler (%d reads of package variables seen)", len(fns), nGlobals))
 	}
 	r.AtLeast(rule, "functions reachable from Handler", len(fns), 100)
+}
+
+// ruleExecutionRequestIdentity (R13k.req): the request an ExecutionContext carries is the client's
+// request — the one the handler parsed — not a request the gateway has put together itself.
+// The executor takes the variables of every sub-request from it (R13k.vars/all): a request
+// assembled for another purpose (the start message of the upstream subscription, trimmed to the
+// variables the root step declares) silently loses the values that only other services' steps use.
+func ruleExecutionRequestIdentity(r *Run) {
+	const rule = "R13k.req"
+	n := 0
+	isReq := func(t types.Type) bool {
+		if p, ok := t.Underlying().(*types.Pointer); ok {
+			t = p.Elem()
+		}
+		return strings.HasSuffix(namedOf(t), "requests.Request")
+	}
+	var builtHere func(v ssa.Value, fn *ssa.Function, depth int) (bool, string)
+	builtHere = func(v ssa.Value, fn *ssa.Function, depth int) (bool, string) {
+		if depth > 6 {
+			return false, ""
+		}
+		v = unwrap(v)
+		switch x := v.(type) {
+		case *ssa.Alloc:
+			if isReq(x.Type()) && x.Heap && !isCell(x) {
+				return true, r.P.pos(x.Pos())
+			}
+			// a local variable: what is stored into it
+			for _, st := range storesTo(x) {
+				if b, at := builtHere(st.Val, fn, depth+1); b {
+					return true, at
+				}
+			}
+		case *ssa.UnOp:
+			if x.Op == token.MUL {
+				return builtHere(x.X, fn, depth+1)
+			}
+		case *ssa.Phi:
+			for _, e := range x.Edges {
+				if b, at := builtHere(e, fn, depth+1); b {
+					return true, at
+				}
+			}
+		case *ssa.FreeVar:
+			// captured: the value bound where the closure is made
+			parent := fn.Parent()
+			if parent == nil {
+				return false, ""
+			}
+			idx := -1
+			for i, fv := range fn.FreeVars {
+				if fv == x {
+					idx = i
+				}
+			}
+			for _, ins := range allInstrs(parent) {
+				if mc, ok := ins.(*ssa.MakeClosure); ok && mc.Fn == ssa.Value(fn) && idx >= 0 && idx < len(mc.Bindings) {
+					if b, at := builtHere(mc.Bindings[idx], parent, depth+1); b {
+						return true, at
+					}
+				}
+			}
+		}
+		return false, ""
+	}
+	for _, fn := range r.P.Funcs {
+		for _, ins := range allInstrs(fn) {
+			st, ok := ins.(*ssa.Store)
+			if !ok {
+				continue
+			}
+			fa, ok := st.Addr.(*ssa.FieldAddr)
+			if !ok || fieldOf(fa) == nil || fieldOf(fa).Name() != "Request" || !strings.HasSuffix(namedOf(fa.X.Type()), "executor.ExecutionContext") {
+				continue
+			}
+			n++
+			built, at := builtHere(st.Val, fn, 0)
+			r.Check(!built, rule, fnName(fn), "request handed to the executor", r.P.pos(st.Pos()),
+				"the request comes from the caller (the handler's parsed request / the planning context), it is not assembled here",
+				"the executor is handed a request that the gateway assembled itself (literal at "+at+") instead of the client's request: the executor forwards the variables of every sub-request from it, so values the assembled request does not carry are silently missing from the steps of other services")
+		}
+	}
+	r.AtLeast(rule, "execution contexts built", n, 2)
+}
+
+// isCell: the alloc is the cell of a local variable (its type is a pointer to the request),
+// not the request itself.
+func isCell(a *ssa.Alloc) bool {
+	if p, ok := a.Type().Underlying().(*types.Pointer); ok {
+		_, ptr := p.Elem().Underlying().(*types.Pointer)
+		return ptr
+	}
+	return false
+}
+
+// ruleNextRequestsSearched (R12e.next): every answer that parseRespones accepts is searched for
+// the requests of the next depth. The answers of de-duplicated lookups are copies placed at
+// several insertion points: the next depth collapses the CALLS again, but each insertion point
+// needs its own next requests, or the fields of deeper services appear under the first
+// occurrence of an object only.
+func ruleNextRequestsSearched(r *Run) {
+	const rule = "R12e.next"
+	root := r.Anchor(rule, "executor.(*DepthExecutor).parseRespones")
+	if root == nil {
+		return
+	}
+	n := 0
+	for _, fn := range withClosures(root) {
+		var calls []ssa.Instruction
+		for _, ins := range allInstrs(fn) {
+			if ci, ok := ins.(ssa.CallInstruction); ok && strings.HasSuffix(calleeName(ci.Common()), "findNextExecutionRequests") {
+				calls = append(calls, ins)
+			}
+		}
+		if len(calls) == 0 {
+			continue
+		}
+		for _, ret := range returnsOf(fn) {
+			success := true
+			for i, res := range retVals(ret) {
+				if isErrorish(fn.Signature.Results().At(i).Type()) && !isNilConst(unwrap(res)) {
+					success = false
+				}
+			}
+			if !success {
+				continue
+			}
+			n++
+			dom := false
+			for _, c := range calls {
+				if instrDominates(c, ret) {
+					dom = true
+				}
+			}
+			r.Check(dom, rule, fnName(fn), "answer searched for next requests", r.P.pos(retPos(ret)),
+				"every accepted answer passes through findNextExecutionRequests",
+				"an answer can be accepted without being searched for the next depth's requests: the results of deeper services are then missing at that insertion point (for instance under every repeated occurrence of a de-duplicated object) and nothing reports it")
+		}
+	}
+	r.AtLeast(rule, "accepting returns of the answer parser", n, 1)
 }
